@@ -1168,8 +1168,9 @@ def _is_enclosed_or_line(
             lns = set(lns)
 
             for i in range(ln, end_ln):  # set any line that follows a line continuation `\` as a continuation (not normally set by _multiline_str_* functions)
-                if lines[i].endswith('\\'):  # this is fine whether it is part of string or not
-                    lns.add(i + 1)
+                if (l := lines[i]).endswith('\\'):  # this is fine whether it is part of string or not
+                    if i + 1 in lns or '#' not in l[max(l.rfind('"'), l.rfind("'")) + 1:]:  # unless it ends a COMMENT between the parts of an implicit concatenation, the line ends outside of a string and so no string follows its last quote
+                        lns.add(i + 1)
 
             if (ret := len(lns) == end_ln - ln) or out_lns is None:
                 return ret
